@@ -279,8 +279,60 @@ def r05_4(ctx):
     ctx.met('R05.4', kp.qual, 'kron_partial present (rows/restrict semantics checked under C15)', kp.node, nontrivial=False)
 
 
+def r05_6(ctx):
+    """Structure of the truncation (shared with C04 as R04.8)."""
+    # (a) every exit of truncate_one_level returns I + A or I - A: the factor for level k truncates ALL coarser active
+    #     functions against level k+1, so no shortcut may skip the representation matrix A
+    tl = ctx.prog.func(H + '.HSpace.truncate_one_level')
+    rets = [r for r in guards.returns_of(tl.node) if r.value is not None]
+    ctx.floor('R05.6', 'returns of truncate_one_level', len(rets), 2)
+    for r in rets:
+        names = {n.id for n in ast.walk(r.value) if isinstance(n, ast.Name)}
+        conds = ' and '.join(('' if p else 'not ') + t for (t, p, _n) in guards.path_conditions(r)) or 'always'
+        if 'A' in names and 'I' in names:
+            ctx.met('R05.6', tl.qual, 'exit under (%s) returns I +- A' % conds, r, src(r))
+        elif 'A' not in names:
+            ctx.violated('R05.6', tl.qual, 'exit under (%s) returns I +- A' % conds, r,
+                         '`%s` does not involve the representation matrix A of the coarser functions in level k+1: the one-level factor '
+                         'truncates every active function of levels 0..k, not only those of level k, so it is the identity only if A = 0' % src(r)[:80])
+        else:
+            ctx.undecided('R05.6', tl.qual, 'exit under (%s) returns I +- A' % conds, r, src(r)[:80])
+    # (b) in represent_fine the rows of the next level are zeroed whenever truncate is set, however Pj was built
+    rf = ctx.prog.func(H + '.HSpace.represent_fine')
+    zero = [s for s in own_nodes(rf.node) if isinstance(s, ast.Assign) and isinstance(s.targets[0], ast.Subscript)
+            and isinstance(s.targets[0].value, ast.Name) and isinstance(s.value, ast.Constant) and s.value.value == 0
+            and guards.in_loop(s, rf.node) is not None]
+    pj = [s for s in own_nodes(rf.node) if isinstance(s, ast.Assign) and isinstance(s.targets[0], ast.Name) and zero
+          and s.targets[0].id == zero[0].targets[0].value.id]
+    if not zero or not pj:
+        ctx.undecided('R05.6', rf.qual, 'truncation applies to every construction of the one-level prolongator', rf.node, 'statements not recognised')
+    else:
+        loop = guards.in_loop(zero[0], rf.node)
+        zc = [(t, p) for (t, p, _n) in guards.path_conditions(zero[0], stop=loop)]
+        extra = [(t, p) for (t, p) in zc if t.replace(' ', '') not in ('truncate', 'self.truncate')]
+        built = [{(t, p) for (t, p, _n) in guards.path_conditions(s, stop=loop)} for s in pj]
+        # a guard shared by every construction (e.g. the level is not the starting level) is not a restriction
+        extra = [c for c in extra if not all(c in b for b in built)]
+        clash = [c for c in extra if any((c[0], not c[1]) in b for b in built)]
+        if not extra:
+            ctx.met('R05.6', rf.qual, 'truncation applies to every construction of the one-level prolongator', zero[0],
+                    '%d construction(s) of %s, zeroing guarded by the truncate flag only' % (len(pj), zero[0].targets[0].value.id))
+        elif clash:
+            ctx.violated('R05.6', rf.qual, 'truncation applies to every construction of the one-level prolongator', zero[0],
+                         'the rows of level k+1 are zeroed only under `%s`, the condition that selects HOW the prolongator is built; on the other '
+                         'path the coarse functions keep their components in the active functions of the next level and the basis no longer sums to one'
+                         % ' and '.join(('' if p else 'not ') + t for t, p in clash))
+        else:
+            ctx.undecided('R05.6', rf.qual, 'truncation applies to every construction of the one-level prolongator', zero[0], 'guarded by %s' % extra)
+
+
 def run(ctx):
+    r05_6(ctx)
     r05_1(ctx)
     r05_2(ctx)
     r05_3(ctx)
     r05_4(ctx)
+    # R05.5 = R04.4: the cached index lists (ravel_global etc.) that place the rows and columns of every transfer matrix are
+    # invalidated after each state write
+    import rules.C04 as c04
+    ctx.shared(c04.r04_4, 'R04.4', 'R05.5')
